@@ -82,7 +82,7 @@ let do_case r =
         (* counterfactual: the same call with the first one / two acceptances deferred (hook quad_defer) *)
         let df = (try (getm r "defer").d with Not_found -> [| ival; 1.0; ival; 1.0 |]) in
         let okd v cv = cv = 0.0 || Float.abs (v -. t2) <= sqrt (tol *. Float.abs v) +. 1e-12 +. 1e-12 *. Float.abs t2 in
-        let restored = okd df.(0) df.(1) || okd df.(2) df.(3) in
+        let restored = okd df.(0) df.(1) || okd df.(2) df.(3) || (Array.length df >= 8 && (okd df.(4) df.(5) || okd df.(6) df.(7))) in
         if !nprop < 4000 then Printf.printf "PROPVIOL %s I=%h true=%h err=%g bound=%g tol=%h restored_by_deferral=%d\n" r.id ival t2 (Float.abs (ival -. t2)) bound tol (if restored then 1 else 0)
       end;
       if kind = 1 then Printf.printf "CONV %s %h %h %h\n" r.id ival ((let (rmid, amid) = rminmax fops zt pt in amid -. rmid)) ((let (rmid, amid) = rminmax fops zt pt in amid +. rmid))
